@@ -260,7 +260,7 @@ class Verdict:
         self.cov["spec_drift"] += nd
         if nd:
             self.cov.setdefault("spec_drift_samples", []).extend([d for r in results for d in r.get("drift", [])][:3])
-            log("SPEC-DRIFT: %d events where the implementation-shaped model L2 and the engine's reported progress differ (not a verdict)" % nd)
+            log("SPEC-DRIFT: %d events where a prediction of the specification outside the listed properties (engine progress, error kind/offset/text, observers) differs from the recorded value (not a verdict)" % nd)
         self.cov["tv_runs"].append({"label": label, "files": len(results), "states": st, "rejected": sum(1 for r in results if not r["accepted"]), "drift": nd})
 
     def violation(self, what, replay_obj):
